@@ -81,6 +81,12 @@ def classify(out, verdicts, byid):
     refused = 0
     for v in verdicts:
         rec = byid[v["id"]]
+        if "drift" in v:
+            out.drift += 1
+            ex = out.extra.setdefault("drift_examples", [])
+            if len(ex) < 5:
+                ex.append({"input": rec["e"], "targets": rec["tgt"], "returned": rec["res"]})
+            continue
         if v["v"] == "SKIP":
             out.skipped += 1
             continue
